@@ -63,6 +63,9 @@ def gen_tasks(tier, seed):
                 for ex in es:
                     if ex != e0:
                         tasks.append({**base, "ignored": [ex]})
+                # an ignore list that names an edge twice denotes the same set
+                for ex in es:
+                    tasks.append({**base, "ignored": [ex, ex]})
                 # a self loop ignored together with every edge at its node (the node's whole through-route is ignored)
                 for (u_, v_) in es:
                     if u_ == v_:
